@@ -1,5 +1,5 @@
 (* Executable transcription of src/api/webanno.rs (stam-rust, after the fix: commits f5fdf1f,
-   ac52297, b489d89, 484f8a3, cd26ed5, cf99644): to_webannotation, output_predicate_datavalue,
+   ac52297, b489d89, 484f8a3, cd26ed5, cf99644, 00f3950): to_webannotation, output_predicate_datavalue,
    output_selector, value_to_json, is_iri, into_iri, WebAnnoConfig::{serialize_context,
    uri_to_namespace}.  Definitions only.  The output is built by string concatenation exactly
    as the Rust code does (same literals, same order, same whitespace); [None] stands for a
@@ -314,14 +314,15 @@ Definition out_annref (st : storev) (c : config) (a : nat) : option str :=
       end
   end.
 
-(* items joined as the loops of output_selector do: a comma after every item but the last *)
+(* items joined as the loops of output_selector do (push_item): a comma between the items that
+   were actually emitted; a skipped selector (empty text) leaves no separator *)
 Fixpoint join_items (l : list (option (str * bool))) : option (str * bool) :=
   match l with
   | [] => Some ([], false)
   | x :: r =>
       match x, join_items r with
       | Some (s, n), Some (s', n') =>
-          Some (s ++ (if is_nil r then [] else [44]) ++ s', n || n')
+          Some (if is_nil s then s' else if is_nil s' then s else s ++ [44] ++ s', n || n')
       | _, _ => None
       end
   end.
